@@ -303,7 +303,10 @@ impl<T: TransportParticipantFactory> DomainParticipantFactoryAsync<T> {
                     .min(time_until_stale_participant.unwrap_or(poke_time))
                     .min(time_until_stale_writer_sample.unwrap_or(poke_time))
                     .min(time_until_pending_writer_sample_timeout.unwrap_or(poke_time))
-                    .min(time_until_participant_announcement.unwrap_or(poke_time));
+                    .min(time_until_participant_announcement.unwrap_or(poke_time))
+                    // An overdue duty gives a negative duration, which must not reach the conversion to
+                    // core::time::Duration (`sec as u64`): run the duty now instead of sleeping for ever
+                    .max(Duration::new(0, 0));
 
                 match select_future(
                     dcps_receiver.receive(),
